@@ -227,7 +227,7 @@ def run(tier):
                             and 'generator raised StopIteration' in str(o.get('msg', '')) \
                             and ck.known('KF-C06-2', f"{c['ebnf'].strip()} on {text!r} [{c['backend']}]"):
                         continue
-                    if not (o['k'] == 'exc' and o.get('cls') == want and 'boom' in str(o.get('msg', ''))):
+                    if not (o['k'] in ('exc', 'err') and o.get('cls') == want and 'boom' in str(o.get('msg', ''))):
                         bad(f'spec: the action exception {want} reaches the caller unchanged', kind, {'k': 'raise', 'cls': want})
                 elif s_['k'] == 'ok' and not (o['k'] == 'ok' and (s_['unspec'] or o['v'] == s_['v'])):
                     bad('spec ok (predicate never hit)', kind, s_)
